@@ -384,6 +384,19 @@ def r16_7(run, model):
                witness="link old/Lib.core new/Lib.core Main.core: two builds of Lib that differ only in bodies have one interface hash; the second is dropped silently, argument order decides what Lib::greet() returns")
 
 
+def r16_8(run, model):
+    from rules import c17
+    run.rule("R16.8", "what a call means does not depend on the order in which the files of a package are loaded: define_function adds a "
+                      "function to the package's function table only after testing that the name is not there, and inherent methods "
+                      "likewise (shared with C17 R17.10)")
+    n = c17.unique_definition(run, model, "R16.8", "define_function", ".funcs", "function table",
+                              "main.gom and util.gom of package Main both define fn bonus(): no diagnostic; the entry file's definition loses, "
+                              "so `compiler run main.gom` and `compiler run util.gom` print different numbers")
+    n += c17.unique_definition(run, model, "R16.8", "define_inherent_impl", ".methods", "inherent method table",
+                               "two files of one package both contain impl P { fn get(self: P) -> int32 }: the later loaded block silently wins")
+    run.floor("writes to the function and method tables examined", n, 2)
+
+
 def run(run, model):
     mir = Mir(run.facts)
     run.try_rule(r16_1, model, mir)
@@ -392,6 +405,7 @@ def run(run, model):
     run.try_rule(r16_4, model)
     run.try_rule(r16_5, model)
     run.try_rule(r16_7, model)
+    run.try_rule(r16_8, model)
     from rules import c04
     run.rule("R16.6", "a package missing from the link inputs is reported, not skipped (shared with C04 R04.8)")
     run.try_rule(c04.r04_8, model)
